@@ -818,8 +818,7 @@ void changed_value_posts::output_intermediate_prices(post_t&       post,
     }
     break;
   }
-  default:
-    assert(false);
+  default:                      // any other type carries no commodities to revalue
     break;
   }
 }
